@@ -7,6 +7,7 @@ Import ListNotations.
 
 (* D16: the TLS table is handed GC_Mark_Item: an object reachable only from a TLS value is
    freed by a forced collection *)
+Definition w8 : word := 8%N.
 Definition d16_heap : heap := nset 8%N (Words [0%N]) nempty.
 Definition d16_reg : registry := nset 8%N false nempty.
 Definition d16_tls : list contents := mk_tls [8%N].
